@@ -49,6 +49,14 @@ def valid_placement(t, k, hz, H):
 class TCBase(Contract):
     """scenario: a problem with symbolic horizon, n tasks of the case's classes, the constraint, initialize()"""
 
+    default_kind = None  # the documented default of the constraint's `kind` (case kind="default": argument left out)
+
+    def kind(self, case):
+        return self.default_kind if case.get("kind") == "default" else case.get("kind")
+
+    def kind_kw(self, case):
+        return {} if case.get("kind") == "default" else {"kind": case["kind"]}
+
     ntasks = 1
     props = ("C03", "C05", "C06")
     cls_name = None
@@ -183,40 +191,42 @@ class TaskEndAt(TCBase):
 class TaskStartAfter(TCBase):
     target = "task_constraint.TaskStartAfter.__init__"
     ntasks = 1
+    default_kind = "lax"
 
     def extra_cases(self, tier):
-        return [{"kind": "lax"}, {"kind": "strict"}]
+        return [{"kind": "lax"}, {"kind": "strict"}, {"kind": "default"}]
 
     def build_constraint(self, ps, P, case, tasks):
-        return ps.TaskStartAfter(task=tasks[0], value=P.int("value"), kind=case["kind"])
+        return ps.TaskStartAfter(task=tasks[0], value=P.int("value"), **self.kind_kw(case))
 
     def meaning(self, P, case, tasks):
         s, v = tasks[0]._start, T(P.int("value"))
-        return Implies(both(tasks), s >= v if case["kind"] == "lax" else s > v)
+        return Implies(both(tasks), s >= v if self.kind(case) == "lax" else s > v)
 
     def wrong_meaning(self, P, case, tasks):
         s, v = tasks[0]._start, T(P.int("value"))
-        return Implies(both(tasks), s > v if case["kind"] == "lax" else s > v + 1)
+        return Implies(both(tasks), s > v if self.kind(case) == "lax" else s > v + 1)
 
 
 @register
 class TaskEndBefore(TCBase):
     target = "task_constraint.TaskEndBefore.__init__"
     ntasks = 1
+    default_kind = "lax"
 
     def extra_cases(self, tier):
-        return [{"kind": "lax"}, {"kind": "strict"}]
+        return [{"kind": "lax"}, {"kind": "strict"}, {"kind": "default"}]
 
     def build_constraint(self, ps, P, case, tasks):
-        return ps.TaskEndBefore(task=tasks[0], value=P.int("value"), kind=case["kind"])
+        return ps.TaskEndBefore(task=tasks[0], value=P.int("value"), **self.kind_kw(case))
 
     def meaning(self, P, case, tasks):
         e, v = tasks[0]._end, T(P.int("value"))
-        return Implies(both(tasks), e <= v if case["kind"] == "lax" else e < v)
+        return Implies(both(tasks), e <= v if self.kind(case) == "lax" else e < v)
 
     def wrong_meaning(self, P, case, tasks):
         e, v = tasks[0]._end, T(P.int("value"))
-        return Implies(both(tasks), e < v if case["kind"] == "lax" else e < v - 1)
+        return Implies(both(tasks), e < v if self.kind(case) == "lax" else e < v - 1)
 
 
 # ------------------------------------------------------------------------------ two task constraints
@@ -226,20 +236,28 @@ class TaskPrecedence(TCBase):
     ntasks = 2
     props = ("C03", "C05", "C06", "C18")
 
+    default_kind = "lax"
+
     def extra_cases(self, tier):
-        return [{"kind": k} for k in ("lax", "strict", "tight")]
+        # "default": neither kind nor offset is given -- documented defaults: lax, no offset
+        return [{"kind": k} for k in ("lax", "strict", "tight", "default")]
+
+    def offset(self, P, case):
+        return z3.IntVal(0) if case["kind"] == "default" else T(P.int("offset"))
 
     def build_constraint(self, ps, P, case, tasks):
+        if case["kind"] == "default":
+            return ps.TaskPrecedence(task_before=tasks[0], task_after=tasks[1])
         return ps.TaskPrecedence(task_before=tasks[0], task_after=tasks[1], offset=P.int("offset"), kind=case["kind"])
 
     def raises(self, P, case):
-        return [("ValidationError", T(P.int("offset")) < 0)]
+        return [("ValidationError", self.offset(P, case) < 0)]
 
     def meaning(self, P, case, tasks):
-        return Implies(both(tasks), spec.rel_kind(case["kind"], tasks[0]._end + T(P.int("offset")), tasks[1]._start))
+        return Implies(both(tasks), spec.rel_kind(self.kind(case), tasks[0]._end + self.offset(P, case), tasks[1]._start))
 
     def wrong_meaning(self, P, case, tasks):
-        return Implies(both(tasks), spec.rel_kind(case["kind"], tasks[0]._end + T(P.int("offset")) + 1, tasks[1]._start))
+        return Implies(both(tasks), spec.rel_kind(self.kind(case), tasks[0]._end + self.offset(P, case) + 1, tasks[1]._start))
 
 
 @register
@@ -390,11 +408,12 @@ def fresh_consts(A, tasks, pb, extra_known=()):
 class GroupBase(ListBase):
     bounded = "lists of 2..3 tasks (quick) / 2..4 (thorough); all integers symbolic"
     ordered = False
+    default_kind = "lax"
 
     def extra_cases(self, tier):
         wins = [{"window": "interval"}, {"window": "length"}, {"window": "none"}]
         if self.ordered:
-            return [dict(w, kind=k) for w in wins for k in ("lax", "strict", "tight")]
+            return [dict(w, kind=k) for w in wins for k in ("lax", "strict", "tight")] + [dict(window="none", kind="default")]
         return wins
 
     def build_constraint(self, ps, P, case, tasks):
@@ -406,7 +425,7 @@ class GroupBase(ListBase):
             P.assume(P.int("len") >= 0)
             kw["time_interval_length"] = P.int("len")
         if self.ordered:
-            kw["kind"] = case["kind"]
+            kw.update(self.kind_kw(case))
             return ps.OrderedTaskGroup(**kw)
         return ps.UnorderedTaskGroup(**kw)
 
@@ -424,7 +443,7 @@ class GroupBase(ListBase):
                     cs.append(Implies(And(sa, sb), b._end - a._start <= L))
         if self.ordered:
             for i in range(len(tasks) - 1):
-                cs.append(Implies(And(sch[i], sch[i + 1]), spec.rel_kind(case["kind"], tasks[i]._end, tasks[i + 1]._start)))
+                cs.append(Implies(And(sch[i], sch[i + 1]), spec.rel_kind(self.kind(case), tasks[i]._end, tasks[i + 1]._start)))
         return And(*cs)
 
     def clauses(self, P, ctx, case):
@@ -470,10 +489,12 @@ class ScheduleNTasksInTimeIntervals(ListBase):
     lifts = True  # element-wise meaning: holds for every list length once the loops are independent (contracts/loops.py)
     target = "task_constraint.ScheduleNTasksInTimeIntervals.__init__"
     bounded = "2..3 tasks x 1..2 intervals (quick) / up to 4 tasks x 3 intervals (thorough); all integers symbolic"
+    default_kind = "exact"
 
     def extra_cases(self, tier):
         ni = (1, 2) if tier == "quick" else (1, 2, 3)
-        return [{"kind": k, "nint": n} for k in ("exact", "min", "max") for n in ni]
+        # "default": kind left out -- documented default: exactly n
+        return [{"kind": k, "nint": n} for k in ("exact", "min", "max") for n in ni] + [{"kind": "default", "nint": 1}]
 
     def task_combos(self, tier):
         base = [
@@ -497,16 +518,14 @@ class ScheduleNTasksInTimeIntervals(ListBase):
         # the documented use is a list of separate intervals
         for (l1, h1), (l2, h2) in itertools.combinations(ivs, 2):
             P.assume(h1 <= l2)
-        return ps.ScheduleNTasksInTimeIntervals(
-            list_of_tasks=tasks, nb_tasks_to_schedule=P.int("n"), list_of_time_intervals=ivs, kind=case["kind"]
-        )
+        return ps.ScheduleNTasksInTimeIntervals(list_of_tasks=tasks, nb_tasks_to_schedule=P.int("n"), list_of_time_intervals=ivs, **self.kind_kw(case))
 
     def inside(self, P, case, t):
         return And(spec.sched(t), Or(*[spec.within(t._start, t._end, lo, hi) for lo, hi in self.intervals(P, case)]))
 
     def meaning(self, P, case, tasks):
         cnt = spec.count([self.inside(P, case, t) for t in tasks])
-        return spec.cmp_kind(case["kind"], cnt, P.int("n"))
+        return spec.cmp_kind(self.kind(case), cnt, P.int("n"))
 
     def clauses(self, P, ctx, case):
         out = super().clauses(P, ctx, case)
@@ -516,7 +535,7 @@ class ScheduleNTasksInTimeIntervals(ListBase):
         for cl in out:
             if cl.kind == "complete" and aux:
                 cl.goal = z3.Exists(aux, And(*A))
-            if cl.kind == "sound" and case["kind"] in ("exact", "max"):
+            if cl.kind == "sound" and self.kind(case) in ("exact", "max"):
                 cnt = spec.count([self.inside(P, case, t) for t in tasks])
                 cl.regions = {"more tasks inside the intervals than counted": cnt > T(P.int("n"))}
         return out
@@ -621,21 +640,27 @@ class ForceScheduleNOptionalTasks(OptRuleBase):
         return out
 
     def extra_cases(self, tier):
-        return [{"kind": k} for k in ("exact", "min", "max")]
+        # "default": neither the count nor the kind is given -- declared defaults: exactly one task
+        return [{"kind": k} for k in ("exact", "min", "max", "default")]
+
+    def n(self, P, case):
+        return z3.IntVal(1) if case["kind"] == "default" else T(P.int("n"))
 
     def build_constraint(self, ps, P, case, tasks):
+        if case["kind"] == "default":
+            return ps.ForceScheduleNOptionalTasks(list_of_optional_tasks=tasks)
         return ps.ForceScheduleNOptionalTasks(list_of_optional_tasks=tasks, nb_tasks_to_schedule=P.int("n"), kind=case["kind"])
 
     def raises(self, P, case):
         n = len([k for k in case if k[0] == "t" and k[1:].isdigit()])
         mandatory = any(not self._decode(case[f"t{i+1}"])[1] for i in range(n))
-        out = [("ValidationError", T(P.int("n")) <= 0)]
+        out = [("ValidationError", self.n(P, case) <= 0)]
         # a mandatory task in the list is rejected (whenever the count itself is acceptable)
-        out.append(("TypeError", And(z3.BoolVal(mandatory), T(P.int("n")) > 0)))
+        out.append(("TypeError", And(z3.BoolVal(mandatory), self.n(P, case) > 0)))
         return out
 
     def meaning(self, P, case, tasks):
-        return spec.cmp_kind(case["kind"], spec.count([spec.sched(t) for t in tasks]), P.int("n"))
+        return spec.cmp_kind("exact" if case["kind"] == "default" else case["kind"], spec.count([spec.sched(t) for t in tasks]), self.n(P, case))
 
     def wrong_meaning(self, P, case, tasks):
-        return spec.count([spec.sched(t) for t in tasks]) == T(P.int("n")) + 1
+        return spec.count([spec.sched(t) for t in tasks]) == self.n(P, case) + 1
